@@ -6,7 +6,7 @@ set -uo pipefail
 patch=$(readlink -f "$1"); tier=$2; shift 2
 S=$(mktemp -d /tmp/mutcheck.XXXXXX)
 trap 'rm -rf "$S"' EXIT
-git -C /repo archive HEAD | tar -x -C "$S" || exit 2
+git -C /repo archive ${MUT_BASE:-HEAD} | tar -x -C "$S" || exit 2
 test -f "$S/go.mod" || { echo "scratch copy failed"; exit 2; }
 (cd "$S" && git init -q . && git apply "$patch") || { echo "patch does not apply"; exit 2; }
 (cd "$S" && GOFLAGS=-mod=mod GOPROXY=off go build ./... ) || { echo "patched tree does not build"; exit 2; }
